@@ -20,6 +20,8 @@ WORLDS = {
     "W7r": dict(keys="W7Keys", files="W7Files", scripts="W7Scripts", srcs="W7Srcs", ops="W7ROps", hasr=True),
     "W7c": dict(keys="W7cKeys", files="W7Files", scripts="W7cScripts", srcs="W7Srcs", ops="W7cOps", hasr=True),
     "W6d": dict(keys="W6Keys", files="W6Files", scripts="W6Scripts", srcs="W6Srcs", ops="W6dOps", hasr=True),
+    "W7d": dict(keys="W7dKeys", files="W7Files", scripts="W7dScripts", srcs="W7Srcs", ops="W7dOps", hasr=True),
+    "W9b": dict(keys="W9bKeys", files="W9bFiles", scripts="W9bScripts", srcs="W9bSrcs", ops="W9bOps", hasr=True),
     "W8":  dict(keys="W3Keys", files="W3Files", scripts="W3Scripts", srcs="W3Srcs", ops="W8Ops", hasr=True),
     "W9":  dict(keys="W9Keys", files="W9Files", scripts="W9Scripts", srcs="W9Srcs", ops="W9Ops", hasr=True),
 }
@@ -102,6 +104,12 @@ def replay(behs, *, variants=None, timeout=900, features=()):
         p = vlib.run_bin("amv", args, timeout=timeout, features=features)
     finally:
         os.remove(path)
+    why = vlib.died(p)
+    if why:
+        # the replay process died in the code under test: report it as a mismatch of the whole batch
+        return dict(cases=len(behs), checks=0, extra={"per_front": {}},
+                    mismatches=[dict(what=f"the process replaying the behaviours died ({why})", front="?", step=None, d8=False,
+                                     stderr=p.stderr[-1200:])])
     return parse_report(p)
 
 
